@@ -130,10 +130,12 @@ class EventDispatcher:
         if not value:
             return
 
-        # Deplete queue if enabling
-        for event_name, args, kwargs in self._event_queue:
+        # Deplete queue if enabling. Each event leaves the queue before
+        # being dispatched, so that it is never dispatched twice (eg. when
+        # a callback raises). Stop if a callback disables dispatching.
+        while self._event_queue and self._dispatch_enabled:
+            event_name, args, kwargs = self._event_queue.pop(0)
             self.dispatch(event_name, *args, **kwargs)
-        self._event_queue.clear()
 
     def clear(self):
         """Remove all handlers and pending events.
